@@ -12,7 +12,7 @@
    returning the same finish time": the engine never calls Start, so the first Next calls of the
    instances sharing a schedule race to start it. *)
 From Coq Require Import List ZArith Bool Arith Lia.
-From PV Require Import Model.SchedTree Model.SchedLeafConc Proofs.SchedLeafConcProofs.
+From PV Require Import Model.SchedTree Model.SchedLeafConc Proofs.SchedLeafConcProofs Proofs.SchedUnlConcProofs.
 Import ListNotations.
 Local Open Scope Z_scope.
 
@@ -86,3 +86,66 @@ Example C02_leaf_once_guard_needed :
             l_start (lg_s g) = 105.
 Proof. exact leaf_once_guard_needed. Qed.
 Print Assumptions C02_leaf_once_guard_needed.
+
+(* ------------------------------------------------------------------ unlimitedSchedule *)
+(* The same for the unlimited leaf (Model/SchedLeafConc.v [unl_progs] = unlilmited.go, re-read from the
+   source like do_at.go):  Next = sync.Once{ finish.Store(now + d) ; MarkStarted } ; now := time.Now() ;
+   finish.Load, answer;  Left = started.Load (-1 at once when not set) ; time.Now, finish.Load.
+   A fresh leaf nobody called Start on, any threads, any programs of Next / Left, every interleaving:
+   no step panics, and the ghost history - every operation at the clock reading of the step in which
+   it takes effect, the start made explicit as Start(finish - d) in the step that marks the schedule
+   started - is a run of the ATOMIC leaf [Unlim d None] of Model/SchedTree.v at those readings (so every
+   Left is -1 before the start and "-1 while now < finish, else 0" after it, every Next is
+   max(now, start) while the window is open and (finish, false) after); no reading is later than the
+   present clock; every thread got exactly its own results, in program order. *)
+Theorem C02_unl_linearizable : forall n d a zero lo plans g,
+  Forall (Forall nl_op) plans ->
+  lreach n d a unl_progs (linit zero lo plans) g ->
+  ~ lstuck n d a unl_progs g /\ unl_conclusion d None g.
+Proof. exact unl_linearizable. Qed.
+Print Assumptions C02_unl_linearizable.
+
+(* after a sequential Start(t) (compositeSchedule.startNext under the write lock) *)
+Theorem C02_unl_linearizable_started : forall n d a t lo plans g,
+  Forall (Forall nl_op) plans ->
+  lreach n d a unl_progs (linit_unl_started d t lo plans) g ->
+  ~ lstuck n d a unl_progs g /\ unl_conclusion d (Some (t + d)) g.
+Proof. exact unl_linearizable_started. Qed.
+Print Assumptions C02_unl_linearizable_started.
+
+(* In the words of the property ("zero only if no token remains", "negative only while the total is
+   genuinely unknown"): whatever the interleaving, a Left of a lazily started unlimited schedule that
+   anybody ever got is -1, or it is 0 and then the schedule is started and its finish time is not after
+   the present clock - the window has closed. *)
+Theorem C02_unl_left_zero_only_closed : forall n d a zero lo plans g,
+  Forall (Forall nl_op) plans ->
+  lreach n d a unl_progs (linit zero lo plans) g ->
+  forall j th k, nth_error (lg_threads g) j = Some th -> In (RLeft k) (lt_hist th) ->
+  k = -1 \/ (k = 0 /\ l_started (lg_s g) = true /\ l_fin (lg_s g) <= lg_lo g).
+Proof. exact unl_left_zero_only_closed. Qed.
+Print Assumptions C02_unl_left_zero_only_closed.
+
+(* Non-vacuity: window of 50, two threads, 14 steps: a Left before the flag is set (-1), the start
+   (finish = 150) made explicit in the ghost when the flag is set, a Left inside the starter's Once that
+   already reads the final finish time (-1 at 120), tokens 130 and (150, false), Left = 0 at 170. *)
+Example C02_unl_example :
+  Forall (Forall nl_op) ux_plans /\
+  match lrun 0 50 (fun _ => 0) unl_progs ux_sched (linit (-1000) 100 ux_plans) with
+  | Some g => (map lt_hist (lg_threads g), map (fun x => snd (fst x)) (lg_ghost g))
+  | None => ([], [])
+  end = ([[RNext 130 true; RNext 150 false]; [RLeft (-1); RLeft (-1); RLeft 0]],
+         [OLeft; OStart 100; OLeft; ONext; ONext; OLeft]).
+Proof. exact unl_example. Qed.
+Print Assumptions C02_unl_example.
+
+(* The order inside the Once is what the theorem rests on: with MarkStarted BEFORE the store of the
+   finish time, a Left running in between sees the flag together with the stale finish time and answers
+   0 with the whole window ahead (8 steps, two threads). *)
+Example C02_unl_store_before_mark_needed :
+  match lrun 0 50 (fun _ => 0) unl_swapped_progs (zsch [(0, 100); (0, 101); (1, 102); (1, 103); (0, 104); (0, 105); (0, 106); (0, 107)])
+              (linit (-1000) 100 [[ONext]; [OLeft]]) with
+  | Some g => map lt_hist (lg_threads g)
+  | None => []
+  end = [[RNext 106 true]; [RLeft 0]].
+Proof. exact unl_store_before_mark_needed. Qed.
+Print Assumptions C02_unl_store_before_mark_needed.
